@@ -64,7 +64,9 @@ func canonParas(ps []control.Paragraph) string {
 // arrive is not part of "the input", so the outcome must not depend on it.
 const deliveryMark = "\x00DELIVERY"
 
-func withDelivery(mode int, text string) string { return fmt.Sprintf("%s%+d\x00%s", deliveryMark, mode, text) }
+func withDelivery(mode int, text string) string {
+	return fmt.Sprintf("%s%+d\x00%s", deliveryMark, mode, text)
+}
 
 func rd(in string) io.Reader {
 	if strings.HasPrefix(in, deliveryMark) {
@@ -226,6 +228,11 @@ type userDoc struct {
 	Next    *userDoc   `control:"-"`
 	Kids    []*userDoc `control:"-"`
 	Note    string     `control:"X-Note"`
+	// private bookkeeping a caller's type may carry: the decoder has no business with unexported members
+	mu      sync.Mutex
+	fetched time.Time
+	cache   map[string]*userDoc
+	note    string
 }
 
 func (n userDoc) flat() string {
@@ -347,17 +354,19 @@ var seeds = map[string][]string{
 	"dependency.Parse": {"foo, bar | baz", "a:any (>= 1.0) [amd64 !i386] <!x y> <z>, ${misc:Depends}", "foo (>= 1", "foo [amd64", "a b", "foo,\n bar\n", "",
 		// one seed per error path of the parser
 		"foo (>= 1.0 beta)", "foo (>= 1.0 ", "foo [!a b]", "foo [a !b]", "foo <!!x>", "foo <x!y>", "foo (?? 1)", "foo (>", "${x", "a (>= 1) (<< 2)", "a [x] [y]", "a <x", "b (<< 2.0~rc1) | c (= 1:1-1)"},
-	"control.ParagraphReader":      {"-----BEGIN PGP SIGNED MESSAGE-----\nHash: SHA256\n\nSource: x\nVersion: 1\n", "-----BEGIN PGP SIGNED MESSAGE-----\nHash: SHA256\n\nSource: x\n-----BEGIN PGP SIGNATURE-----\n\niQ==\n-----END PGP SIGNATURE-----\n", "-----BEGIN PGP MESSAGE-----\n\nxxxx\n-----END PGP MESSAGE-----\n", "A: 1\nB: 2\n c\n .\n\nC: 3\n", "# c\nA:\n x\n", "no colon\n", " orphan\n", "A: 1\r\n\r\nB: 2", ""},
-	"control.ParagraphReader.Next": {"-----BEGIN PGP SIGNED MESSAGE-----\nHash: SHA256\n\nSource: x\nVersion: 1\n", "-----BEGIN PGP SIGNED MESSAGE-----\nHash: SHA256\n\nSource: x\n-----BEGIN PGP SIGNATURE-----\n\niQ==\n-----END PGP SIGNATURE-----\n", "-----BEGIN PGP MESSAGE-----\n\nxxxx\n-----END PGP MESSAGE-----\n", "A: 1\nB: 2\n c\n .\n\nC: 3\n", "# c\nA:\n x\n", "no colon\n", " orphan\n", ""},
-	"control.ParseDsc":             {"-----BEGIN PGP SIGNED MESSAGE-----\nHash: SHA256\n\nSource: x\nVersion: 1\n", "-----BEGIN PGP SIGNED MESSAGE-----\nHash: SHA256\n\nSource: x\n-----BEGIN PGP SIGNATURE-----\n\niQ==\n-----END PGP SIGNATURE-----\n", "-----BEGIN PGP MESSAGE-----\n\nxxxx\n-----END PGP MESSAGE-----\n", "Format: 3.0 (quilt)\nSource: hello\nBinary: hello, hello-doc\nArchitecture: any all\nVersion: 2.10-1\nBuild-Depends: debhelper (>= 9)\nFiles:\n d41d8cd98f00b204e9800998ecf8427e 10 hello_2.10-1.dsc\n", "Version: a\n", "Files:\n x\n", ""},
-	"control.ParseChanges":         {"-----BEGIN PGP SIGNED MESSAGE-----\nHash: SHA256\n\nSource: x\nVersion: 1\n", "-----BEGIN PGP SIGNED MESSAGE-----\nHash: SHA256\n\nSource: x\n-----BEGIN PGP SIGNATURE-----\n\niQ==\n-----END PGP SIGNATURE-----\n", "-----BEGIN PGP MESSAGE-----\n\nxxxx\n-----END PGP MESSAGE-----\n", "Format: 1.8\nSource: hello\nBinary: hello\nArchitecture: source\nVersion: 2.10-1\nFiles:\n d41d8cd98f00b204e9800998ecf8427e 10 devel optional hello_2.10-1.dsc\n", "Version: a\n", "Files:\n d41d 10 f\n", ""},
-	"control.ParseControl":         {"-----BEGIN PGP SIGNED MESSAGE-----\nHash: SHA256\n\nSource: x\nVersion: 1\n", "-----BEGIN PGP SIGNED MESSAGE-----\nHash: SHA256\n\nSource: x\n-----BEGIN PGP SIGNATURE-----\n\niQ==\n-----END PGP SIGNATURE-----\n", "-----BEGIN PGP MESSAGE-----\n\nxxxx\n-----END PGP MESSAGE-----\n", "Source: hello\nBuild-Depends: debhelper (>= 9)\n\nPackage: hello\nArchitecture: any\nDepends: ${misc:Depends}, a | b\nDescription: x\n long\n", "Source: x\nBuild-Depends: ((\n", "Source: x\n\nPackage: y\nDepends: a b\n", ""},
-	"control.ParseBinaryIndex":     {"-----BEGIN PGP SIGNED MESSAGE-----\nHash: SHA256\n\nSource: x\nVersion: 1\n", "-----BEGIN PGP SIGNED MESSAGE-----\nHash: SHA256\n\nSource: x\n-----BEGIN PGP SIGNATURE-----\n\niQ==\n-----END PGP SIGNATURE-----\n", "-----BEGIN PGP MESSAGE-----\n\nxxxx\n-----END PGP MESSAGE-----\n", "Package: hello\nVersion: 2.10-1\nInstalled-Size: 280\nArchitecture: amd64\nSize: 10\n\nPackage: b\nVersion: 1\n", "Package: a\nVersion: 1\n\nPackage: b\nVersion: !\n", "Package: a\nInstalled-Size: x\n", ""},
-	"control.ParseSourceIndex":     {"-----BEGIN PGP SIGNED MESSAGE-----\nHash: SHA256\n\nSource: x\nVersion: 1\n", "-----BEGIN PGP SIGNED MESSAGE-----\nHash: SHA256\n\nSource: x\n-----BEGIN PGP SIGNATURE-----\n\niQ==\n-----END PGP SIGNATURE-----\n", "-----BEGIN PGP MESSAGE-----\n\nxxxx\n-----END PGP MESSAGE-----\n", "Package: hello\nBinary: hello, hello-doc\nVersion: 2.10-1\nArchitecture: any all\nFiles:\n d41d8cd98f00b204e9800998ecf8427e 10 hello_2.10-1.dsc\n\nPackage: b\nVersion: 1\n", "Package: a\nVersion: 1\n\nPackage: b\nFiles:\n x\n", ""},
-	"deb.Control":                  {"-----BEGIN PGP SIGNED MESSAGE-----\nHash: SHA256\n\nSource: x\nVersion: 1\n", "-----BEGIN PGP SIGNED MESSAGE-----\nHash: SHA256\n\nSource: x\n-----BEGIN PGP SIGNATURE-----\n\niQ==\n-----END PGP SIGNATURE-----\n", "-----BEGIN PGP MESSAGE-----\n\nxxxx\n-----END PGP MESSAGE-----\n", "Package: hello\nVersion: 2.10-1\nArchitecture: amd64\nDepends: a | b\nInstalled-Size: 10\n", "Package: hello\n", "Package: hello\nVersion: 1\nArchitecture: amd64\nInstalled-Size: x\n", ""},
+	"control.ParagraphReader":          {"-----BEGIN PGP SIGNED MESSAGE-----\nHash: SHA256\n\nSource: x\nVersion: 1\n", "-----BEGIN PGP SIGNED MESSAGE-----\nHash: SHA256\n\nSource: x\n-----BEGIN PGP SIGNATURE-----\n\niQ==\n-----END PGP SIGNATURE-----\n", "-----BEGIN PGP MESSAGE-----\n\nxxxx\n-----END PGP MESSAGE-----\n", "A: 1\nB: 2\n c\n .\n\nC: 3\n", "# c\nA:\n x\n", "no colon\n", " orphan\n", "A: 1\r\n\r\nB: 2", ""},
+	"control.ParagraphReader.Next":     {"-----BEGIN PGP SIGNED MESSAGE-----\nHash: SHA256\n\nSource: x\nVersion: 1\n", "-----BEGIN PGP SIGNED MESSAGE-----\nHash: SHA256\n\nSource: x\n-----BEGIN PGP SIGNATURE-----\n\niQ==\n-----END PGP SIGNATURE-----\n", "-----BEGIN PGP MESSAGE-----\n\nxxxx\n-----END PGP MESSAGE-----\n", "A: 1\nB: 2\n c\n .\n\nC: 3\n", "# c\nA:\n x\n", "no colon\n", " orphan\n", ""},
+	"control.ParseDsc":                 {"-----BEGIN PGP SIGNED MESSAGE-----\nHash: SHA256\n\nSource: x\nVersion: 1\n", "-----BEGIN PGP SIGNED MESSAGE-----\nHash: SHA256\n\nSource: x\n-----BEGIN PGP SIGNATURE-----\n\niQ==\n-----END PGP SIGNATURE-----\n", "-----BEGIN PGP MESSAGE-----\n\nxxxx\n-----END PGP MESSAGE-----\n", "Format: 3.0 (quilt)\nSource: hello\nBinary: hello, hello-doc\nArchitecture: any all\nVersion: 2.10-1\nBuild-Depends: debhelper (>= 9)\nFiles:\n d41d8cd98f00b204e9800998ecf8427e 10 hello_2.10-1.dsc\n", "Version: a\n", "Files:\n x\n", ""},
+	"control.ParseChanges":             {"-----BEGIN PGP SIGNED MESSAGE-----\nHash: SHA256\n\nSource: x\nVersion: 1\n", "-----BEGIN PGP SIGNED MESSAGE-----\nHash: SHA256\n\nSource: x\n-----BEGIN PGP SIGNATURE-----\n\niQ==\n-----END PGP SIGNATURE-----\n", "-----BEGIN PGP MESSAGE-----\n\nxxxx\n-----END PGP MESSAGE-----\n", "Format: 1.8\nSource: hello\nBinary: hello\nArchitecture: source\nVersion: 2.10-1\nFiles:\n d41d8cd98f00b204e9800998ecf8427e 10 devel optional hello_2.10-1.dsc\n", "Version: a\n", "Files:\n d41d 10 f\n", ""},
+	"control.ParseControl":             {"-----BEGIN PGP SIGNED MESSAGE-----\nHash: SHA256\n\nSource: x\nVersion: 1\n", "-----BEGIN PGP SIGNED MESSAGE-----\nHash: SHA256\n\nSource: x\n-----BEGIN PGP SIGNATURE-----\n\niQ==\n-----END PGP SIGNATURE-----\n", "-----BEGIN PGP MESSAGE-----\n\nxxxx\n-----END PGP MESSAGE-----\n", "Source: hello\nBuild-Depends: debhelper (>= 9)\n\nPackage: hello\nArchitecture: any\nDepends: ${misc:Depends}, a | b\nDescription: x\n long\n", "Source: x\nBuild-Depends: ((\n", "Source: x\n\nPackage: y\nDepends: a b\n", ""},
+	"control.ParseBinaryIndex":         {"-----BEGIN PGP SIGNED MESSAGE-----\nHash: SHA256\n\nSource: x\nVersion: 1\n", "-----BEGIN PGP SIGNED MESSAGE-----\nHash: SHA256\n\nSource: x\n-----BEGIN PGP SIGNATURE-----\n\niQ==\n-----END PGP SIGNATURE-----\n", "-----BEGIN PGP MESSAGE-----\n\nxxxx\n-----END PGP MESSAGE-----\n", "Package: hello\nVersion: 2.10-1\nInstalled-Size: 280\nArchitecture: amd64\nSize: 10\n\nPackage: b\nVersion: 1\n", "Package: a\nVersion: 1\n\nPackage: b\nVersion: !\n", "Package: a\nInstalled-Size: x\n", ""},
+	"control.ParseSourceIndex":         {"-----BEGIN PGP SIGNED MESSAGE-----\nHash: SHA256\n\nSource: x\nVersion: 1\n", "-----BEGIN PGP SIGNED MESSAGE-----\nHash: SHA256\n\nSource: x\n-----BEGIN PGP SIGNATURE-----\n\niQ==\n-----END PGP SIGNATURE-----\n", "-----BEGIN PGP MESSAGE-----\n\nxxxx\n-----END PGP MESSAGE-----\n", "Package: hello\nBinary: hello, hello-doc\nVersion: 2.10-1\nArchitecture: any all\nFiles:\n d41d8cd98f00b204e9800998ecf8427e 10 hello_2.10-1.dsc\n\nPackage: b\nVersion: 1\n", "Package: a\nVersion: 1\n\nPackage: b\nFiles:\n x\n", ""},
+	"deb.Control":                      {"-----BEGIN PGP SIGNED MESSAGE-----\nHash: SHA256\n\nSource: x\nVersion: 1\n", "-----BEGIN PGP SIGNED MESSAGE-----\nHash: SHA256\n\nSource: x\n-----BEGIN PGP SIGNATURE-----\n\niQ==\n-----END PGP SIGNATURE-----\n", "-----BEGIN PGP MESSAGE-----\n\nxxxx\n-----END PGP MESSAGE-----\n", "Package: hello\nVersion: 2.10-1\nArchitecture: amd64\nDepends: a | b\nInstalled-Size: 10\n", "Package: hello\n", "Package: hello\nVersion: 1\nArchitecture: amd64\nInstalled-Size: x\n", ""},
 	"control.Unmarshal(user document)": {"Package: hello\nVersion: 2.10-1\nDepends: a | b\nX-Note: n\n", "Package: hello\n\nPackage: other\nVersion: 1\n", "Version: x\n", ""},
-	"changelog.Parse":              {"hello (1.0-1) unstable; urgency=low\n\n  * x\n\n -- A <a@b>  Mon, 02 Jan 2006 15:04:05 +0100\n\nhello (0.9-1) unstable; urgency=low\n\n  * y\n\n -- A <a@b>  Sun, 01 Jan 2006 15:04:05 +0100\n", "hello (1.0-1) unstable; urgency=low\n\n  * x\n", "hello (a) unstable;\n", ""},
-	"changelog.ParseOne":           {"hello (1.0-1) unstable; urgency=low\n\n  * x\n\n -- A <a@b>  Mon, 02 Jan 2006 15:04:05 +0100\n", " x\n", ""},
+	"changelog.Parse":                  {"hello (1.0-1) unstable; urgency=low\n\n  * x\n\n -- A <a@b>  Mon, 02 Jan 2006 15:04:05 +0100\n\nhello (0.9-1) unstable; urgency=low\n\n  * y\n\n -- A <a@b>  Sun, 01 Jan 2006 15:04:05 +0100\n", "hello (1.0-1) unstable; urgency=low\n\n  * x\n", "hello (a) unstable;\n", ""},
+	"changelog.ParseOne": {"hello (1.0-1) unstable; urgency=low\n\n  * x\n\n -- A <a@b>  Mon, 02 Jan 2006 15:04:05 +0100\n", " x\n", "",
+		"hello (1.0-1) unstable; Urgency=medium, URGENCY=low, urgency=high, Binary-Only=yes, binary-only=no\n\n  * x\n\n -- A <a@b>  Mon, 02 Jan 2006 15:04:05 +0100\n",
+		"hello (1.0-1) unstable experimental UNSTABLE; k=v=w, K=V, k=\n\n  * x\n\n -- A <a@b>  Mon, 02 Jan 2006 15:04:05 +0100\n"},
 }
 
 func Run(r *mc.Run) {
@@ -382,6 +391,7 @@ func Run(r *mc.Run) {
 	runEdits(r)
 	runDeterminism(r)
 	runDeliveries(r)
+	runMapOrders(r)
 	runSchedules(r)
 	runRace(r)
 }
@@ -756,6 +766,42 @@ func runDeliveries(r *mc.Run) {
 	})
 }
 
+// ---- the outcome does not depend on the order in which the library scans its maps ----
+
+func runMapOrders(r *mc.Run) {
+	ins := detInputs()
+	r.Scenario("determinism-under-reversed-map-scans", map[string]interface{}{"inputs": len(ins), "note": "instrumented build: every map scan inside the library in sorted and in reverse order; plain build: two plain calls"}, len(ins), func(i int, st *mc.Stats) bool {
+		setReverse, unbind := BindMapOrderToggle()
+		defer unbind()
+		ep := entry(ins[i].Entry)
+		if ep == nil {
+			return true
+		}
+		st.Evals++
+		st.Traces++
+		st.Nontrivial++
+		var a, b Result
+		sl := enter(i, ins[i].Entry, ins[i].Text)
+		p, msg := mc.Guard(func() {
+			a = ep.Call(ins[i].Text)
+			setReverse(true)
+			b = ep.Call(ins[i].Text)
+			setReverse(false)
+		})
+		sl.leave()
+		switch {
+		case p:
+			st.Violate(mc.V("determinism-under-reversed-map-scans", "returns-without-panic", ins[i], "no panic", msg, "entry:"+ins[i].Entry))
+		case a.key() != b.key() || a.ErrText != b.ErrText:
+			st.Violate(mc.V("determinism-under-reversed-map-scans", "outcome-depends-only-on-input", ins[i], clip(a.key()), "with the library's map scans in reverse order: "+clip(b.key()), "entry:"+ins[i].Entry))
+			st.Class("differs")
+		default:
+			st.Class("identical")
+		}
+		return true
+	})
+}
+
 func detInputs() []In {
 	var out []In
 	for _, ep := range EntryPoints {
@@ -796,6 +842,21 @@ func Replay(scenario string, raw json.RawMessage) []*mc.Violation {
 		if mc.UnmarshalInput(raw, &in) == nil {
 			if v := checkDelivery(scenario, in); v != nil {
 				return []*mc.Violation{v}
+			}
+		}
+	case scenario == "determinism-under-reversed-map-scans":
+		var in In
+		if mc.UnmarshalInput(raw, &in) == nil {
+			if ep := entry(in.Entry); ep != nil {
+				setReverse, unbind := BindMapOrderToggle()
+				defer unbind()
+				a := ep.Call(in.Text)
+				setReverse(true)
+				b := ep.Call(in.Text)
+				setReverse(false)
+				if a.key() != b.key() || a.ErrText != b.ErrText {
+					return []*mc.Violation{mc.V(scenario, "outcome-depends-only-on-input", in, clip(a.key()), "with the library's map scans in reverse order: "+clip(b.key()), "entry:"+in.Entry)}
+				}
 			}
 		}
 	case strings.HasPrefix(scenario, "determinism"):
